@@ -21,13 +21,15 @@ def run(m, chk):
         "np.zeros/ones/eye/empty without dtype=object, true division of two library integers) reaches a return value or a state write of the listed operations; no fixed-width integer dtype on those paths; on the polynomial "
         "paths of evaluation / insertion / elevation / splitting points are only used as `scalar * point` (point on the right) and `point + point`. Agreement of float and exact results to 1e-9 is not decided."
     )
-    chk.decides = ["INT-RATIO (no true division in curves.py has numerator and denominator both read straight from weights / control points: int data on Fraction knots never meet as int / int)", "GATE-TOL (the refusal is `error > tolerance`, strictly: the exact error 0 of a removable knot passes tolerance = 0)", "QUAD-ORDER (the span-by-span rule of func2func has more than 2 max(p, q) nodes: exact for the squares of both bases)", "E8: no library float reaches a sink of the exact entries", "FIXED-WIDTH", "MIN-POINT", 'MEMO-KEY', 'no truncated library float (int(float)) used as a value', 'ONE-NODE-FAMILY (fit_points)', 'PROBE-OPERAND (+= / -= of a KnotVector ask the operand whether it is a number)', 'LOSSY-COMPARE', 'DTYPE-INHERIT']
+    chk.decides = ["INT-MATRIX (the transformation matrices of A + B are multiplied as matrices of objects: large integer control points are not summed in 64 bits)", "INT-RATIO (no true division in curves.py has numerator and denominator both read straight from weights / control points: int data on Fraction knots never meet as int / int)", "GATE-TOL (the refusal is `error > tolerance`, strictly: the exact error 0 of a removable knot passes tolerance = 0)", "QUAD-ORDER (the span-by-span rule of func2func has more than 2 max(p, q) nodes: exact for the squares of both bases)", "E8: no library float reaches a sink of the exact entries", "FIXED-WIDTH", "MIN-POINT", 'MEMO-KEY', 'no truncated library float (int(float)) used as a value', 'ONE-NODE-FAMILY (fit_points)', 'PROBE-OPERAND (+= / -= of a KnotVector ask the operand whether it is a number)', 'LOSSY-COMPARE', 'DTYPE-INHERIT']
     chk.not_decided = ["float and exact runs agree to relative 1e-9", "conditioning", "values equal the mathematically exact result"]
     chk.assume("user `int / int` at the API surface is Python semantics, not a float introduced by the library")
     chk.assume("a true division is reported only when both operands are library integers on every path ('may be an integer' is not reported)")
     chk.assume("unknown number kinds are never reported; their number is given in the evidence")
     ents = entries(m.prog)
-    from .extra import int_ratio
+    from .extra import int_matrix, int_ratio
+
+    int_matrix(r, chk, ["curves.BaseCurve.__add__", "heavy.Operations.matrix_transformation"], floor=3)
 
     int_ratio(r, chk)
     nsink = e8_sinks(chk, AX, ents)
